@@ -1,4 +1,5 @@
 import Knut.Proofs.PortfolioBalance
+import Knut.Proofs.PortfolioDays
 import Knut.Properties.C20Periods
 /-!
 # C20 — the values behind `portfolio weights` / `returns` are the figures of `knut balance -v`
@@ -18,13 +19,21 @@ runs them in lockstep over the same list of days and shows that `check` and `Com
 transactions never touch asset/liability accounts, and that `Align` puts a transaction dated `x` into a column up to
 `D` exactly when `x ≤ D`.
 
-Hypotheses: the same `-v`, `--account`, `--commodity`; no `-m`, no `--remap` on the balance (`Matches`); `D` is a column
-of the balance report and its period ends increase (true of every partition, `endDates_increasing`); every day up to `D`
-lies inside the balance's window or nothing has been booked up to it (without `--from` the window of `knut balance`
-starts at the first transaction; with a later `--from` the balance shows the change inside the window only, and the
-statement would be false).  Exact arithmetic; both pipelines over the SAME list of days: the commands register different
-additional empty days (period ends / period starts) before `Build`, and that an empty day changes neither pipeline's
-figures is not mechanised (the harness compares with the real `knut balance -v` on every case).
+Hypotheses of the pipeline-level theorems (`C20_values_are_valued_balance`, …): the same `-v`, `--account`, `--commodity`;
+no `-m`, no `--remap` on the balance (`Matches`); `D` is a column of the balance report and its period ends increase (true
+of every partition, `endDates_increasing`); every day up to `D` lies inside the balance's window or nothing has been
+booked up to it; both pipelines over the SAME list of days.
+
+Command level (`C20_command_values_are_valued_balance`, `C20_command_weights_are_shares_of_valued_balance`): the two
+commands register different additional empty days before `Build` (period ends / period starts).  An empty day is a no-op
+of the portfolio pipeline (`perf_emptyExt`: at day boundaries `vPrev = norm`, so `Valuate` books no adjustment), and the
+portfolio pipeline accepts every day list the balance pipeline accepts (`balance_run_rev`); the builder's days carry
+their transactions' dates and hold no transaction before the builder's `min` (`ensure_day_txs`).  So for the model of the
+two COMMANDS over the same journal the only hypotheses left are: both succeed, same `-v`/`--account`/`--commodity`, no
+`-m`/`--remap` on the balance, no `--from` of the balance after the first transaction (with a later `--from` the balance
+shows the change inside the window only, and the statement is false), `D` a column of the balance report.
+Exact arithmetic; the rendering of the inserts into report cells is C01/C06 material (the harness compares with the real
+`knut balance -v` on every case).
 -/
 namespace Knut.C20
 open Knut Knut.Performance Knut.Weights
@@ -115,6 +124,162 @@ theorem C20_weights_are_shares_of_valued_balance (cfg : Cfg) (b : BalCfg) (v : C
   intro e he
   rw [hmem e he]
 
+/-- **command level**: `knut portfolio weights|returns` and `knut balance -v` over the same journal.  The two commands
+register different additional days before `Build` (the period ends / with closing the period starts); an empty day
+changes nothing the portfolio pipeline records (`perf_emptyExt`), and whatever list of days the balance pipeline accepts
+the portfolio pipeline accepts too (`balance_run_rev`).  Hence: if both commands succeed — same `-v`, `--account`,
+`--commodity`, the balance without `-m`/`--remap` and without a `--from` after the first transaction (window, interval,
+`--last`, `--to` of either command otherwise arbitrary) — then for every column date `D` of the balance report and every
+commodity `c`, the value `ComputeValues` holds at the end of day `D` in the portfolio run is the total of the balance
+report's inserts on asset/liability accounts for `c` in the columns up to `D`. -/
+theorem C20_command_values_are_valued_balance (f : Flags) (fb : BalanceFlags) (v : Commodity) (ds : List Directive)
+    (hv : f.valuation = some v) (hbv : fb.valuation = some v)
+    (hacc : fb.accountFilter = f.accountFilter) (hcom : fb.commodityFilter = f.commodityFilter)
+    (hmap : fb.mapping = []) (hremap : ∀ s, fb.remap s = false)
+    (hfrom : fb.from?.getD 0 ≤ (Builder.ofList ds).min)
+    (part : Partition) (days : List Day) (perfs : List DayPerf)
+    (hs : setup f ds = .ok (part, days)) (hp : perfFrom f.cfg {} days = .ok perfs)
+    (es : List Entry) (partB : Partition) (hb : BalanceCmd.entries fb ds = .ok (es, partB))
+    (D : Int) (hD : D ∈ partB.endDates) :
+    ∀ c, (valueAt perfs D).get c 0 = balanceValue es c D := by
+  -- the portfolio command's days
+  have hdays : days = part.endDates.foldl insertDay (Builder.ofList ds).days := by
+    unfold setup at hs
+    simp only at hs
+    split at hs
+    · cases hs
+    · injection hs with hs; injection hs with h1 h2
+      subst h1; subst h2; rfl
+  obtain ⟨hsortedP, _, _⟩ := setup_days hs
+  -- the balance command's run
+  unfold BalanceCmd.entries at hb
+  simp only at hb
+  cases hnp : newPartition (BalanceCmd.window fb (Builder.ofList ds)) fb.interval fb.last with
+  | panic s => rw [hnp] at hb; cases hb
+  | ok pB =>
+    rw [hnp] at hb; simp only at hb
+    generalize hcfg : BalCfg.mk fb.valuation pB.span pB.periods fb.close fb.mapping fb.remap fb.accountFilter
+      fb.commodityFilter = cfgB at hb
+    generalize hdB : (if fb.close = true then (Builder.ofList ds).ensureDays pB.startDates else Builder.ofList ds).build
+      = daysB at hb
+    cases hrun : Balance.run cfgB daysB with
+    | error e => rw [hrun] at hb; cases hb
+    | ok st =>
+      rw [hrun] at hb; simp only at hb
+      injection hb with hb; injection hb with h1 h2
+      subst h1; subst h2
+      have hdaysB : daysB = (if fb.close = true then pB.startDates else []).foldl insertDay (Builder.ofList ds).days := by
+        rw [← hdB]
+        cases fb.close <;> rfl
+      have hm : Matches f.cfg cfgB v := by
+        rw [← hcfg]
+        exact ⟨hv, hbv, hacc, hcom, hmap, hremap⟩
+      have hbase := (ofList_spec openKind ds).1
+      have hsortedB : List.Pairwise (· < ·) (daysB.map (·.date)) := by
+        rw [hdaysB, List.pairwise_map]
+        exact ensureDays_sorted _ _ hbase
+      have hdatesB : ∀ d ∈ daysB, ∀ t ∈ d.transactions, t.date = d.date := by
+        intro d hd
+        rw [hdaysB] at hd
+        exact (ensure_day_txs ds _ d hd).1
+      have hinv : MTM.CloseInv ({} : BalState) := by intro k hk; cases hk
+      obtain ⟨perfsB, hpB⟩ := balance_run_rev hm daysB {} {} st ⟨rfl, rfl, rfl, rfl, rfl⟩ hinv hdatesB hrun
+      -- the window of the balance command
+      have hspan : cfgB.span = BalanceCmd.window fb (Builder.ofList ds) := by
+        rw [← hcfg]; exact newPartition_span hnp
+      have hstart : cfgB.span.start = (Builder.ofList ds).min := by
+        rw [hspan]
+        unfold BalanceCmd.window Period.clip
+        simp only
+        split <;> omega
+      have hper : cfgB.periods = pB.periods := by rw [← hcfg]
+      have hstop : D ≤ cfgB.span.stop := by
+        obtain ⟨p, hp1, hp2⟩ := List.mem_map.mp hD
+        obtain ⟨hsp, hshape⟩ := periods_shape hnp
+        have hspan' : cfgB.span = pB.span := by rw [← hcfg]
+        rw [hspan', hsp, ← hp2]
+        rcases hshape with h1 | ⟨L, hL, _, hbnd, _⟩
+        · rw [h1] at hp1
+          simp only [List.mem_singleton] at hp1
+          rw [hp1]; exact Int.le_refl _
+        · rw [hL] at hp1
+          exact (hbnd p (List.mem_reverse.mp hp1)).2.2
+      obtain ⟨stF, hrun', hval⟩ := C20_values_are_valued_balance f.cfg cfgB v hm daysB perfsB hsortedB hdatesB hpB
+        (by rw [hper]; exact (endDates_increasing hnp).1) D (by rw [hper]; exact hD)
+        (by
+          intro pre d post hsplit hle
+          by_cases hmin : (Builder.ofList ds).min ≤ d.date
+          · left
+            simp only [Period.contains, Bool.and_eq_true, Bool.not_eq_true', decide_eq_false_iff_not]
+            constructor <;> omega
+          · right
+            intro x hx
+            have hxd : x.date ≤ d.date := by
+              rw [hsplit, List.map_append, List.pairwise_append] at hsortedB
+              rcases List.mem_append.mp hx with hx | hx
+              · have := hsortedB.2.2 x.date (List.mem_map.mpr ⟨x, hx, rfl⟩) d.date (by simp)
+                omega
+              · simp only [List.mem_singleton] at hx; rw [hx]; exact Int.le_refl _
+            have hxm : x ∈ daysB := by
+              rw [hsplit]
+              rcases List.mem_append.mp hx with hx | hx
+              · exact List.mem_append_left _ hx
+              · simp only [List.mem_singleton] at hx
+                rw [hx]; exact List.mem_append_right _ List.mem_cons_self
+            rw [hdaysB] at hxm
+            exact (ensure_day_txs ds _ x hxm).2 (by omega))
+      rw [hrun] at hrun'
+      injection hrun' with e; subst e
+      -- the portfolio run over its own days records the same values
+      have hext : EmptyExt days daysB := by
+        rw [hdays, hdaysB]
+        exact emptyExt_ensure _ _ _
+      have hds1 : DSorted perfs := dsorted_of_dates (by rw [perfFrom_dates days {} perfs hp]; exact hsortedP)
+      have hds2 : DSorted perfsB := dsorted_of_dates (by rw [perfFrom_dates daysB {} perfsB hpB]; exact hsortedB)
+      have hsame := perf_emptyExt hext {} perfs perfsB boundary_empty hp hpB hds1 hds2 D
+      intro c
+      have e : valueAt perfs D = valueAt perfsB D := hsame
+      rw [e]
+      exact hval c
+
+/-- **command level, the weights**: on a period end day `D` of `knut portfolio weights` that is also a column of
+`knut balance -v` (same interval flags: every one), the weights added are, commodity by commodity of `V1`,
+`balance figure of the commodity / Σ balance figures`, the figures being those of the balance COMMAND for `D` -/
+theorem C20_command_weights_are_shares_of_valued_balance (f : Flags) (fb : BalanceFlags) (v : Commodity)
+    (ds : List Directive) (hv : f.valuation = some v) (hbv : fb.valuation = some v)
+    (hacc : fb.accountFilter = f.accountFilter) (hcom : fb.commodityFilter = f.commodityFilter)
+    (hmap : fb.mapping = []) (hremap : ∀ s, fb.remap s = false)
+    (hfrom : fb.from?.getD 0 ≤ (Builder.ofList ds).min)
+    (part : Partition) (days : List Day) (perfs : List DayPerf)
+    (hs : setup f ds = .ok (part, days)) (hp : perfFrom f.cfg {} days = .ok perfs)
+    (es : List Entry) (partB : Partition) (hb : BalanceCmd.entries fb ds = .ok (es, partB))
+    (p : DayPerf) (hpm : p ∈ perfs) (hD : p.date ∈ partB.endDates)
+    (mapping : List MapRule) (u u' : Universe) (adds : List Add)
+    (hq : queryDay mapping u p.date p.v1 = some (adds, u')) :
+    (∀ c, p.v1.get c 0 = balanceValue es c p.date) ∧
+    adds.map (·.weight) = p.v1.map (fun e => balanceValue es e.1 p.date /
+      ((p.v1.map (fun e' => balanceValue es e'.1 p.date)).sum)) := by
+  have hval := C20_command_values_are_valued_balance f fb v ds hv hbv hacc hcom hmap hremap hfrom part days perfs hs hp
+    es partB hb p.date hD
+  have hsorted := (setup_days hs).1
+  rw [C20_valueAt_record perfs (by rw [perfFrom_dates days {} perfs hp]; exact hsorted) p hpm] at hval
+  refine ⟨hval, ?_⟩
+  have hn := perfFrom_v1_nodup days [] {} perfs (reach_empty f.cfg) hp p hpm
+  have hmem : ∀ e ∈ p.v1, e.2 = balanceValue es e.1 p.date := by
+    intro e he
+    rw [← hval e.1, get_of_mem_nodup hn he]
+  rw [(C20_weights_share mapping u u' p.date p.v1 adds hq).1]
+  have hsum : sumVals p.v1 = (p.v1.map (fun e' => balanceValue es e'.1 p.date)).sum := by
+    unfold sumVals
+    congr 1
+    apply List.map_congr_left
+    intro e he
+    exact hmem e he
+  rw [hsum]
+  apply List.map_congr_left
+  intro e he
+  rw [hmem e he]
+
 /-! ### Non-vacuity: the journal of `Properties/C20Periods.lean` through both pipelines -/
 
 def pB : BalCfg := { valuation := some "CHF", span := ⟨1, 3⟩, periods := [⟨1, 1⟩, ⟨2, 2⟩, ⟨3, 3⟩] }
@@ -137,6 +302,21 @@ example (D : Int) (hD : D ∈ pB.periods.map (·.stop)) :
   intro pre d post hsplit _
   left
   rcases p_split hsplit with ⟨_, rfl⟩ | ⟨_, rfl⟩ | ⟨_, rfl⟩ <;> decide
+
+/-- the balance COMMAND on the same journal (daily columns, closing transactions on the period starts): it succeeds,
+its columns are the days 1, 2, 3 and it shows 220 USD and 50 CHF on day 3 -/
+def pFB : BalanceFlags := { valuation := some "CHF", to := 3, interval := .daily }
+
+example : (match BalanceCmd.entries pFB pDs with
+    | .ok (es, pb) => decide (pb.endDates = [1, 2, 3] ∧ balanceValue es "USD" 2 = 220 ∧ balanceValue es "USD" 3 = 220 ∧
+        balanceValue es "CHF" 3 = 50)
+    | .error _ => false) = true := by decide +kernel
+
+/-- the hypotheses of `C20_command_values_are_valued_balance` hold for the two commands on this journal -/
+example (es : List Entry) (partB : Partition) (hb : BalanceCmd.entries pFB pDs = .ok (es, partB)) (D : Int)
+    (hD : D ∈ partB.endDates) (c : Commodity) : (valueAt pPerfs D).get c 0 = balanceValue es c D :=
+  C20_command_values_are_valued_balance pF pFB "CHF" pDs rfl rfl rfl rfl rfl (fun _ => rfl) (by decide +kernel)
+    pPart [pDay1, pDay2, pDay3] pPerfs p_setup p_perfs es partB hb D hD c
 
 /-- the value of the portfolio at the end of day 2 is the 220 of the balance -/
 example : (valueAt pPerfs 2).get "USD" 0 = 220 := by decide +kernel
